@@ -542,6 +542,7 @@ func runC02(r *Run) {
 	})
 	runC02Exec(r)
 	r.Cases(300000, r.N(160, 2500), 0, func(c *Case, rng *Rng) { c02MultiCase(c, rng) })
+	r.Cases(400000, r.N(150, 1500), 0, func(c *Case, rng *Rng) { c02CfgCase(c, rng) })
 	r.Cases(200000, r.N(150, 2000), 0, func(c *Case, rng *Rng) { c02ConcCase(c, rng) })
 	if r.Thorough() {
 		runC02Exhaustive(r)
